@@ -56,6 +56,8 @@ func (o Op) String() string {
 		return fmt.Sprintf("append-each[%d..%d]+stop+start", o.Lo, o.Hi)
 	case "delete":
 		return fmt.Sprintf("delete[%d,%d)", o.From, o.To)
+	case "appenddel":
+		return fmt.Sprintf("append[%d..%d]+delete[%d,%d)-at-once", o.Lo, o.Hi, o.From, o.To)
 	}
 	return o.K
 }
@@ -220,6 +222,41 @@ func (w *World) Apply(op Op) (err error, pan string) {
 			}
 			return w.open()
 		})
+	case "appenddel":
+		// Append directly followed by DeleteRange on a slow disk (every datastore write takes 1ms of
+		// virtual time): the flush of the appended headers is still in flight when DeleteRange starts
+		w.settle()
+		_, tail := w.headTail()
+		hs := w.C.Slice(op.Lo, op.Hi)
+		w.DS.OnOp = func(kind string) {
+			if kind == "commit" || kind == "put" || kind == "delete" {
+				time.Sleep(time.Millisecond)
+			}
+		}
+		appended := false
+		err, pan = vk.TryErr(func() error {
+			if e := w.St.Append(ctx, hs...); e != nil {
+				return fmt.Errorf("Append: %w", e)
+			}
+			appended = true
+			return w.St.DeleteRange(ctx, op.From, op.To)
+		})
+		vk.Settle()
+		w.DS.OnOp = nil
+		if appended {
+			for h := op.Lo; h <= op.Hi; h++ {
+				w.M[h] = true
+			}
+			w.ExpectNonEmpty = true
+		}
+		if err == nil && pan == "" {
+			if op.From == tail && op.To == op.Hi+1 {
+				w.ExpectNonEmpty = false
+			}
+			for h := op.From; h < op.To; h++ {
+				delete(w.M, h)
+			}
+		}
 	case "delete":
 		w.settle()
 		head, tail := w.headTail()
